@@ -110,6 +110,18 @@ def episode_vec(spec: Any, text: str, by_id: Optional[Dict[str, Any]] = None):
         return np.zeros((_WORLD_DIM[0],), dtype=np.float32)
     if isinstance(spec, str) and spec.startswith("text:"):
         return _EMB.encode([spec[5:]])[0]
+    if isinstance(spec, str) and spec.startswith("near:"):
+        # another text's vector, rescaled in float32: the cosine with any query equals that text's up to the last few ulps
+        _, factor, txt = spec.split(":", 2)
+        return (np.asarray(_EMB.encode([txt])[0], dtype=np.float32) * np.float32(float(factor))).astype(np.float32)
+    if isinstance(spec, str) and spec.startswith("ulp:"):
+        # another text's vector with ONE component moved by a few float32 ulps: cosines that differ far below 1e-9
+        _, k, txt = spec.split(":", 2)
+        v = np.array(_EMB.encode([txt])[0], dtype=np.float32, copy=True)
+        i = abs(int(k)) % len(v)
+        for _ in range(1 + abs(int(k)) % 3):
+            v[i] = np.nextafter(v[i], np.float32(np.inf if int(k) >= 0 else -np.inf), dtype=np.float32)
+        return v
     if spec is None or spec == "none":
         return None
     return _EMB.encode([text])[0]
@@ -172,7 +184,9 @@ def gen_world(r: Stream, *, n_agents: Optional[int] = None, max_graphs: int = 3,
         if bad_ts and r.chance(0.2):
             ts = r.choice(["", "garbled", None])
         ep: Dict[str, Any] = {"id": "ep%02d" % ei, "owner": r.choice(owners), "text": text, "ts": ts,
-                              "vec": r.weighted([("text", 10), ("zero", 1), ("text:" + " ".join(r.sample(VOCAB, 2)), 3)])}
+                              "vec": r.weighted([("text", 10), ("zero", 1), ("text:" + " ".join(r.sample(VOCAB, 2)), 3)] +
+                                                ([("near:%s:%s" % (r.choice(["1.094", "0.37", "3.0", "1.0000001"]), r.choice(eps)["text"]), 2),
+                                                  ("ulp:%d:%s" % (r.randint(-40, 40), r.choice(eps)["text"]), 3)] if eps else []))}
         if r.chance(0.5):
             ep["cluster"] = "c%d" % r.randint(0, 3)
         if r.chance(0.5):
